@@ -39,16 +39,19 @@ var configs = []config{
 }
 
 type caseDesc struct {
-	Config  string `json:"config"`
-	Closer  string `json:"closer"` // app or target
-	Len     int    `json:"len"`
-	Parts   []int  `json:"parts,omitempty"`
-	Race    bool   `json:"race"`                      // close issued concurrently with the last write
-	RaceUs  int    `json:"race_us"`                   // delay between starting the last write and closing
-	Others  int    `json:"others"`                    // other logical connections open meanwhile
-	Refusal bool   `json:"refused_request_meanwhile"` // a request for an unknown channel is refused after the first write
-	Active  bool   `json:"others_active"`
-	Key     uint64 `json:"key"`
+	Config string `json:"config"`
+	Closer string `json:"closer"` // app or target
+	Len    int    `json:"len"`
+	Parts  []int  `json:"parts,omitempty"`
+	Race   bool   `json:"race"` // close issued concurrently with the last write
+	// HalfClose: the closing side shuts down its writing direction only (shutdown(SHUT_WR), as nc or a finished
+	// HTTP/1.0 client do) and waits for its own connection to end
+	HalfClose bool   `json:"half_close,omitempty"`
+	RaceUs    int    `json:"race_us"`                   // delay between starting the last write and closing
+	Others    int    `json:"others"`                    // other logical connections open meanwhile
+	Refusal   bool   `json:"refused_request_meanwhile"` // a request for an unknown channel is refused after the first write
+	Active    bool   `json:"others_active"`
+	Key       uint64 `json:"key"`
 }
 
 var boundaries = []int{0, 1, 2, 4095, 4096, 4097, 32639, 32640, 32641, 32767, 32768, 32769, 65535, 65536, 65537}
@@ -56,6 +59,29 @@ var boundaries = []int{0, 1, 2, 4095, 4096, 4097, 32639, 32640, 32641, 32767, 32
 // closerWrite writes data in parts and closes, optionally racing the close with the last write. It returns the
 // number of bytes the writes accepted.
 func closerWrite(c net.Conn, data []byte, parts []int, race bool, raceUs int, afterFirst func()) int {
+	n, _ := closerWriteHalf(c, data, parts, race, raceUs, afterFirst, false, 0)
+	return n
+}
+
+// closerWriteHalf: with half the writer shuts down its writing direction only and reports whether its own
+// connection ended (end-of-stream or error) within the bound.
+func closerWriteHalf(c net.Conn, data []byte, parts []int, race bool, raceUs int, afterFirst func(), half bool, bound time.Duration) (accepted int, selfEnded bool) {
+	selfEnded = true
+	finish := func() { c.Close() }
+	if hc, ok := c.(interface{ CloseWrite() error }); ok && half {
+		race = false
+		finish = func() {
+			hc.CloseWrite()
+			_, selfEnded, _ = readToEOF(c, bound)
+			c.Close()
+		}
+	}
+	defer func() { finish() }()
+	accepted = closerWrite0(c, data, parts, race, raceUs, afterFirst)
+	return
+}
+
+func closerWrite0(c net.Conn, data []byte, parts []int, race bool, raceUs int, afterFirst func()) int {
 	accepted := 0
 	rest := data
 	var pieces [][]byte
@@ -100,7 +126,6 @@ func closerWrite(c net.Conn, data []byte, parts []int, race bool, raceUs int, af
 			afterFirst()
 		}
 	}
-	c.Close()
 	return accepted
 }
 
@@ -139,6 +164,7 @@ func runCase(d caseDesc) (problem string, inconclusive bool) {
 		data     []byte
 		ended    bool
 		accepted int
+		selfEnd  bool
 	}
 	obsCh := make(chan tgtObs, 16)
 	first := make(chan struct{}, 64)
@@ -160,8 +186,8 @@ func runCase(d caseDesc) (problem string, inconclusive bool) {
 	mainHandler := func(tc *vlib.TargetConn) {
 		first <- struct{}{}
 		if d.Closer == "target" {
-			n := closerWrite(tc.Conn, payload, d.Parts, d.Race, d.RaceUs, refuse)
-			obsCh <- tgtObs{accepted: n}
+			n, selfEnd := closerWriteHalf(tc.Conn, payload, d.Parts, d.Race, d.RaceUs, refuse, d.HalfClose, timeout)
+			obsCh <- tgtObs{accepted: n, selfEnd: selfEnd}
 			return
 		}
 		data, ended, _ := readToEOF(tc.Conn, timeout)
@@ -264,7 +290,10 @@ func runCase(d caseDesc) (problem string, inconclusive bool) {
 	if d.Closer == "app" {
 		// make sure the logical connection exists end to end before data+close are issued? No: the property
 		// holds from the first byte; the application just writes and closes.
-		accepted := closerWrite(app, payload, d.Parts, d.Race, d.RaceUs, refuse)
+		accepted, selfEnd := closerWriteHalf(app, payload, d.Parts, d.Race, d.RaceUs, refuse, d.HalfClose, timeout)
+		if !selfEnd {
+			return fmt.Sprintf("application wrote %d bytes and shut down its writing direction; its own connection did not end within %v", accepted, timeout), false
+		}
 		var obs tgtObs
 		select {
 		case obs = <-obsCh:
@@ -284,8 +313,11 @@ func runCase(d caseDesc) (problem string, inconclusive bool) {
 		var obs tgtObs
 		select {
 		case obs = <-obsCh:
-		case <-time.After(5 * time.Second):
+		case <-time.After(timeout + 5*time.Second):
 			return "target writer did not finish", false
+		}
+		if !obs.selfEnd {
+			return fmt.Sprintf("target wrote %d bytes and shut down its writing direction; the application got its end-of-stream (%v) but the target's own connection did not end within %v", obs.accepted, ended, timeout), false
 		}
 		want := payload[:obs.accepted]
 		if off := vlib.FirstDiff(data, want); off != -1 {
@@ -351,6 +383,7 @@ func TestOrderlyClose(t *testing.T) {
 			}
 		}
 		d.Race = rapid.IntRange(0, 2).Draw(rt, "race") == 0 && d.Len > 0
+		d.HalfClose = !d.Race && rapid.IntRange(0, 2).Draw(rt, "halfClose") == 0
 		if d.Race {
 			d.RaceUs = rapid.IntRange(0, 400).Draw(rt, "raceUs")
 		}
@@ -364,7 +397,7 @@ func TestOrderlyClose(t *testing.T) {
 			vlib.Rec.Inconclusive("bind")
 			return
 		}
-		labels := []string{"cfg:" + c.name, "closer:" + d.Closer, fmt.Sprintf("others:%d", d.Others)}
+		labels := []string{"cfg:" + c.name, "closer:" + d.Closer, fmt.Sprintf("others:%d", d.Others), fmt.Sprintf("half-close:%v", d.HalfClose)}
 		if d.Race {
 			labels = append(labels, "race")
 		}
